@@ -5,12 +5,12 @@ go 1.25.0
 require (
 	github.com/alecthomas/units v0.0.0-20240927000941-0f3dac36c52b
 	github.com/arm-doe/sts v0.0.0
+	gopkg.in/yaml.v2 v2.4.0
 )
 
 require (
 	github.com/golang-module/carbon/v2 v2.3.8 // indirect
 	go.bryk.io/pkg v0.0.0-20250411182835-130bbccf42ad // indirect
-	gopkg.in/yaml.v2 v2.4.0 // indirect
 )
 
 replace github.com/arm-doe/sts => /repo
